@@ -9,15 +9,16 @@ def stepQ (fs : List String) : Option String := do
   let e ← ruleEnginesOf cs
   let m := handle e cs.conf cs.up cs.q
   let mOut := renderOutcome m
+  let shown := classOf cs.conf m ++ "\t" ++ mOut
   if impl.head? == some "PANIC" then
-    pure (verdict false (some "impl-panic") mOut)
+    pure (verdict false (some "impl-panic") shown)
   else
     let (obs, _) ← outcomeP.run impl
     match engineMismatch cs e with
-    | some why => pure (verdict false (C02.check (oracleEngines cs) cs.conf cs.up cs.q obs) (why ++ "\t" ++ mOut))
+    | some why => pure (verdict false (C02.check (oracleEngines cs) cs.conf cs.up cs.q obs) (why ++ "\t" ++ shown))
     | none =>
       let agree := mOut == renderOutcome obs
-      pure (verdict agree (C02.check e cs.conf cs.up cs.q obs) mOut)
+      pure (verdict agree (C02.check e cs.conf cs.up cs.q obs) shown)
 
 def step (_ : Unit) (line : String) : Unit × String :=
   match splitTab line with
